@@ -717,6 +717,14 @@ void bn_rec_reg(int8_t *naf, size_t *len, const bn_t k, size_t n, size_t w) {
 		return;
 	}
 
+	/* The integer must fit the temporary sized from the recoding length. */
+	if (k->used > d) {
+		*len = 0;
+		RLC_FREE(t);
+		RLC_THROW(ERR_NO_VALID);
+		return;
+	}
+
 	memset(naf, 0, *len);
 	dv_zero(t, d);
 	dv_copy(t, k->dp, k->used);
